@@ -196,3 +196,10 @@ MUTANTS += [
  {"id": "c10-target-key", "prop": "C10", "file": _SE, "old": "                tensor_target = [s for s in tensor.idx if s in target]", "new": "                tensor_target = [s for s in tensor.idx if s not in target]"},
  {"id": "c10-symmetry-sign", "prop": "C10", "file": "adcgen/expr_container.py", "old": "                symmetry[perms] = -1\n", "new": "                symmetry[perms] = +1\n"},
 ]
+MUTANTS += [
+ {"id": "c07-key-term-lost", "prop": "C07", "file": _SI, "old": "    for n, matches in equal_terms.items():\n        res += terms[n]\n", "new": "    for n, matches in equal_terms.items():\n"},
+ {"id": "c07-wrong-term", "prop": "C07", "file": _SI, "old": "            res += terms[other_n].subs(sub)", "new": "            res += terms[n].subs(sub)"},
+ {"id": "c07-no-subs", "prop": "C07", "file": _SI, "old": "            res += terms[other_n].subs(sub)", "new": "            res += terms[other_n]"},
+ {"id": "c07-target-map", "prop": "C07", "file": _SI, "old": "                    if is_target != other_is_target or \\\n                            (is_target and other_is_target and\n                             idx is not other_idx):\n                        continue", "new": "                    if is_target != other_is_target:\n                        continue"},
+ {"id": "c07-accept-any", "prop": "C07", "file": _SI, "old": "            if not isinstance(term.sympy - sub_other_term, Add):\n                return sub", "new": "            return sub"},
+]
